@@ -216,7 +216,12 @@ def run_case(ctx, case):
         exp = expected_f32(m.df)
         ok, _ = ctx.call("Motl.write_out", m.write_out, path, "emmotl")
     else:
-        ok, m = ctx.call("EmMotl(df)", cm.EmMotl, t)
+        hdr = getattr(ctx, "_last_header", None)
+        if hdr is not None and case["i"] % 3 == 0:
+            # the rarely used header= argument: the header of some file loaded earlier (usually another particle count)
+            ok, m = ctx.call("EmMotl(df, header)", cm.EmMotl, t, dict(hdr))
+        else:
+            ok, m = ctx.call("EmMotl(df)", cm.EmMotl, t)
         if not ok:
             return
         if case["cls"] == "nan_after_construction":
@@ -232,6 +237,13 @@ def run_case(ctx, case):
     if case["cls"] != "nan_after_construction" and not np.array_equal(exp, exp_user):
         ctx.check("roundtrip", False, {"stage": "constructor changed the table", **(first_diff(exp, exp_user) or {})})
         return
+    try:
+        ctx.active = False
+        _df_h, ctx._last_header = cm.EmMotl.read_in(path)
+    except Exception:
+        pass
+    finally:
+        ctx.active = True
     loaders = [("Motl.load(str)", lambda: cm.Motl.load(path)), ("EmMotl(str)", lambda: cm.EmMotl(path)),
                ("EmMotl(Path)", lambda: cm.EmMotl(pathlib.Path(path)))]
     which = loaders[case["i"] % 3:] + loaders[:case["i"] % 3]
